@@ -104,22 +104,43 @@ def _as_value(e):
     return None
 
 
+_CANON = {}
+
+
+def canon(e):
+    """Expression with every reference/dereference node removed (`(*p).0` and `p.0` compare equal):
+    used only to MATCH hypothesis keys against branch conditions, where pointer-ness is irrelevant."""
+    if not isinstance(e, tuple):
+        return e
+    r = _CANON.get(e)
+    if r is not None:
+        return r
+    x = e
+    while isinstance(x, tuple) and x and x[0] in ("ref", "deref") and len(x) == 2:
+        x = x[1]
+    if isinstance(x, tuple) and x and x[0] in ("field", "downcast", "index", "bin", "un", "cast", "discr", "cidx"):
+        x = tuple(canon(y) if isinstance(y, tuple) and y and isinstance(y[0], str) else y for y in x)
+    if len(_CANON) < 200000:
+        _CANON[e] = x
+    return x
+
+
 def refuted_edges(body, ex, hyp, variants=None):
     """CFG edges that contradict a hypothesis.  hyp: {expr: ('eq', v) | ('ne', v)} with v an int or
     an enum variant name; variants: {expr: {discr: name}} for enum-typed hypothesis expressions.
     Only switches on `Eq/Ne(expr, constant)` and `discriminant(expr)` are interpreted; every other
     switch keeps all its edges (over-approximation of feasible paths)."""
     out = set()
-    hyp = {strip_refs(k): v for k, v in hyp.items()}
-    variants = {strip_refs(k): v for k, v in (variants or {}).items()}
+    hyp = {canon(k): v for k, v in hyp.items()}
+    variants = {canon(k): v for k, v in (variants or {}).items()}
     for s in body.normal:
         if s not in body.reachable or body.term(s)["k"] != "switch":
             continue
         d = ex.switch_discr(s)
         t = body.term(s)
         edges = switch_edges(body, s)
-        if strip_refs(d) in hyp and body.term(s)["discr_ty"] == "bool" and hyp[strip_refs(d)][0] == "eq" and isinstance(hyp[strip_refs(d)][1], bool):
-            want = hyp[strip_refs(d)][1]
+        if canon(d) in hyp and body.term(s)["discr_ty"] == "bool" and hyp[canon(d)][0] == "eq" and isinstance(hyp[canon(d)][1], bool):
+            want = hyp[canon(d)][1]
             listed = [v2 for v2, _ in t["cases"]]
             for tg, vals, oth in edges:
                 edge_truth = None
@@ -132,10 +153,10 @@ def refuted_edges(body, ex, hyp, variants=None):
                 if edge_truth is not None and edge_truth != want:
                     out.add((s, tg))
             continue
-        if strip_refs(d) in hyp and body.term(s)["discr_ty"] not in ("bool", "isize") and isinstance(hyp[strip_refs(d)][1], (int, tuple, set, frozenset)) \
-                and not isinstance(hyp[strip_refs(d)][1], bool):
+        if canon(d) in hyp and body.term(s)["discr_ty"] not in ("bool", "isize") and isinstance(hyp[canon(d)][1], (int, tuple, set, frozenset)) \
+                and not isinstance(hyp[canon(d)][1], bool):
             # `match x { 9 => .., 2 => .., _ => .. }` on an integer the hypothesis speaks about
-            rel, v = hyp[strip_refs(d)]
+            rel, v = hyp[canon(d)]
             listed = [v2 for v2, _ in t["cases"]]
             for tg, vals, oth in edges:
                 if rel == "eq" and isinstance(v, int):
@@ -149,7 +170,7 @@ def refuted_edges(body, ex, hyp, variants=None):
                     out.add((s, tg))
             continue
         if d[0] == "bin" and d[1] in ("Eq", "Ne"):
-            a, c = strip_refs(d[2]), strip_refs(d[3])
+            a, c = canon(d[2]), canon(d[3])
             x, k = (a, _as_value(c)) if a in hyp else ((c, _as_value(a)) if c in hyp else (None, None))
             if x is None or k is None:
                 continue
@@ -173,8 +194,8 @@ def refuted_edges(body, ex, hyp, variants=None):
                     edge_truth = True if listed == [0] else (False if listed == [1] else None)
                 if edge_truth is not None and edge_truth != truth:
                     out.add((s, tg))
-        elif d[0] == "discr" and strip_refs(d[1]) in hyp:
-            x = strip_refs(d[1])
+        elif d[0] == "discr" and canon(d[1]) in hyp:
+            x = canon(d[1])
             names = variants.get(x)
             if not names:
                 continue
@@ -196,7 +217,7 @@ def refuted_edges(body, ex, hyp, variants=None):
         for s in body.normal:
             if s not in reach or body.term(s)["k"] != "switch" or body.term(s)["discr_ty"] != "bool":
                 continue
-            d = strip_refs(ex.switch_discr(s))
+            d = canon(ex.switch_discr(s))
             if d[0] != "var":
                 continue
             vals = set()
@@ -212,7 +233,7 @@ def refuted_edges(body, ex, hyp, variants=None):
                 if i >= len(st):
                     ok = False
                     break
-                e = strip_refs(ex.rvalue(st[i]["rv"], dloc))
+                e = canon(ex.rvalue(st[i]["rv"], dloc))
                 if e[0] == "const" and isinstance(e[1], bool):
                     vals.add(e[1])
                 elif e in hyp and hyp[e][0] == "eq" and isinstance(hyp[e][1], bool):
@@ -309,6 +330,48 @@ def _fold_known_switches(body, ex, variants_of=None):
     return out
 
 
+def _refute_defs(body, ex, hyp):
+    """A hypothesis about a variable that is a merge of literal definitions (`let (side, key) = match s
+    {"w" => (White, 0), "b" => (Black, k)}`) refutes the paths through the definitions that contradict
+    it: the out-edges of such a definition's block are infeasible, provided no other definition of the
+    variable can follow it (then that literal really is the value the hypothesis speaks about)."""
+    out = set()
+    for k, (rel, v) in hyp.items():
+        k = strip_refs(k)
+        comp = None
+        var = k
+        if k[0] == "field" and strip_refs(k[1])[0] == "var":
+            var, comp = strip_refs(k[1]), k[2]
+        if var[0] != "var" or len(var[2]) < 2:
+            continue
+        defs = [d for d, kind in var[2] if kind == "whole"]
+        if len(defs) != len(var[2]):
+            continue
+        for (bb, i) in defs:
+            st = body.stmts(bb)
+            if i >= len(st) or bb not in body.reachable:
+                continue
+            e = strip_refs(ex.rvalue(st[i]["rv"], (bb, i)))
+            if comp is not None:
+                if not (e[0] == "agg" and e[1] in ("tuple",) or (e[0] == "agg" and e[3])):
+                    continue
+                try:
+                    e = strip_refs(e[3][int(comp)])
+                except (ValueError, IndexError):
+                    continue
+            val = _as_value(e)
+            if val is None:
+                continue
+            contradicts = (rel == "eq" and val != v) or (rel == "ne" and (val == v or (isinstance(v, (tuple, set, frozenset)) and val in v)))
+            if not contradicts:
+                continue
+            if any(o != (bb, i) and (body.reaches(bb, o[0]) or (o[0] == bb and o[1] > i)) for o in defs):
+                continue
+            for sc in body.succ.get(bb, []):
+                out.add((bb, sc))
+    return out
+
+
 def specialise(body, hyp, variants=None, keep=None, rounds=6):
     """Partial evaluation of a body under a hypothesis: repeatedly (1) refute the switch edges that
     contradict the hypothesis or a discriminant that has become a known constant, (2) restrict the
@@ -322,7 +385,7 @@ def specialise(body, hyp, variants=None, keep=None, rounds=6):
     ex = Exprs(b, keep=keep)
     dead = set()
     for _ in range(rounds):
-        new = set(refuted_edges(b, ex, hyp, variants)) | _fold_known_switches(b, ex)
+        new = set(refuted_edges(b, ex, hyp, variants)) | _fold_known_switches(b, ex) | _refute_defs(b, ex, hyp)
         new -= dead
         if not new:
             break
